@@ -641,3 +641,26 @@ func storesFieldIdx(l *Loaded, pkgPath, typ string, idx int) func(ssa.Instructio
 	}
 	return storesStructField(l, pkgPath, typ, st.Field(idx).Name())
 }
+
+// returnedValue: the value result i of a return statement stands for.  In a
+// function with defers go/ssa spills the results (`*r = X; rundefers; t = *r;
+// return t`): the value stored into the result variable in the return's own
+// block is reported instead of the load.
+func returnedValue(ret *ssa.Return, i int) ssa.Value {
+	v := ret.Results[i]
+	ld, ok := v.(*ssa.UnOp)
+	if !ok || ld.Op != token.MUL {
+		return v
+	}
+	al, ok := ld.X.(*ssa.Alloc)
+	if !ok {
+		return v
+	}
+	b := ret.Block()
+	for j := len(b.Instrs) - 1; j >= 0; j-- {
+		if st, ok := b.Instrs[j].(*ssa.Store); ok && st.Addr == ssa.Value(al) {
+			return st.Val
+		}
+	}
+	return v
+}
